@@ -1084,3 +1084,9 @@ M("C02-bool-ranked-as-integer", "C02", "src/interrogate/interfaceMakerPythonNati
 M("C02-benign-bool-rank-first-in-chain", "C02", "src/interrogate/interfaceMakerPythonNative.cxx",
   "  if (TypeManager::is_nullptr(type)) {\n    return 15;\n  } else if (TypeManager::is_pointer_to_Py_buffer(type)) {", "  if (TypeManager::is_bool(type)) {\n    return 1;\n  } else if (TypeManager::is_nullptr(type)) {\n    return 15;\n  } else if (TypeManager::is_pointer_to_Py_buffer(type)) {",
   benign=True)
+
+MUTANTS.append({"id": "C14-forced-types-through-identity-ordered-set", "prop": "C14", "benign": False,
+  "expect": "R14.5c|InterrogateBuilder::build",
+  "edits": [("src/interrogate/interrogateBuilder.cxx", "  // First, get all the types that were explicitly forced.\n  Commands::const_iterator ci;",
+             "  // First, get all the types that were explicitly forced.\n  std::set<CPPType *, CPPTypeCompare> forced_types;\n  Commands::const_iterator ci;"),
+            ("src/interrogate/interrogateBuilder.cxx", "    assert(type != nullptr);\n    get_type(type, true);\n  }", "    assert(type != nullptr);\n    forced_types.insert(type);\n  }\n  for (CPPType *type : forced_types) {\n    get_type(type, true);\n  }")]})
